@@ -9,11 +9,16 @@ C08 driver. Payloads:
                                                 SQL level: SELECT id, F OVER (…) FROM t
   (grp (rows (id p k x)…) (by b) (fn name))     SQL level: SELECT [p,] F(x) FROM t [GROUP BY p]
 
+  (dec (rows (id p d)…) (script (g b f…)…))     SQL level: a script of SELECT [p,] F1(d),…,Fk(d) FROM t
+                                                [GROUP BY p] over a DECIMAL column (d in hundredths), each
+                                                statement followed by a dump of the stored column
+
 bounds: up | (p n) | cur | (f n) | uf.   Answer: implModelObs, specObs, region.
 -/
 import Gms.Driver.Proto
 import Gms.Model.Window
 import Gms.Model.GroupAgg
+import Gms.Model.DecAgg
 open Gms.Proto Gms.Window
 
 def bound? : Sexp → Option Bound
@@ -170,8 +175,33 @@ def ntile2Case (rows : List Row) (part : Bool) (n1 n2 : Nat) : String :=
     let spec := pair (sortId (specQuery (q n1) rows)) (sortId (specQuery (q n2) rows))
     if impl == spec then answer impl else answer impl spec (if n1 != n2 then "ntile_shared_window_dedup" else "-")
 
+def decRow? : Sexp → Option (Int × Val × Val)
+  | .list [i, p, d] => do
+    let i ← i.int?; let p ← val? p; let d ← val? d
+    pure (i, p, d)
+  | _ => none
+
+def decStmt? : Sexp → Option Gms.DecAgg.Stmt
+  | .list (.atom "g" :: b :: fs) => do
+    let b ← b.nat?
+    let fns ← fs.mapM fun f => match f with | .atom n => Gms.DecAgg.fnOfName n | _ => none
+    pure { byP := b == 1, fns := fns }
+  | _ => none
+
+/-- Impl model: the buffers as the compiled code has them (`fresh` accumulators, pinned by the fact
+`aggAlias` through `Gms.C08.facts_alias`); Spec: definitions on the table's values, table unchanged -/
+def decCase (rows : List (Int × Val × Val)) (script : List Gms.DecAgg.Stmt) : String :=
+  let (h, trows) := Gms.DecAgg.mkTable rows []
+  let impl := Gms.DecAgg.showScript script (Gms.DecAgg.runScript .fresh h trows script)
+  let spec := Gms.DecAgg.showScript script (Gms.DecAgg.specScript h trows script)
+  if impl == spec then answer impl else answer impl spec "-"
+
 def handle (p : List Sexp) : String :=
   match p with
+  | [.list [.atom "dec", .list (.atom "rows" :: rs), .list (.atom "script" :: ss)]] =>
+    match rs.mapM decRow?, ss.mapM decStmt? with
+    | some rows, some script => decCase rows script
+    | _, _ => answer "bad-case"
   | [.list [.atom "ntile2", .list (.atom "rows" :: rs), .list [.atom "part", b], n1, n2]] =>
     match rs.mapM row?, b.nat?, n1.nat?, n2.nat? with
     | some rows, some b, some n1, some n2 => ntile2Case rows (b == 1) n1 n2
